@@ -57,13 +57,14 @@ Agrees(p, o) == \/ p.k = "accept" /\ o.k = "accept"
 
 Next == /\ i <= Len(Rows)
         /\ \A c \in Clauses(R) : PrintT(<<"VERDICT", R.id, c>>)
-        /\ LET k == FaultLine(R)
+        \* (raw rows -- a line truncated inside -- carry no abstract line sequence: outcome-class clauses only)
+        /\ LET k == IF R.raw THEN 0 ELSE FaultLine(R)
                f == FaultAt(R, k) IN
            IF f = "" THEN TRUE
            ELSE /\ PrintT(<<"FAULT", R.id, f, k>>)
                 /\ IF R.obs.k \in {"accept", "error"} /\ ~(R.obs.k = "error" /\ R.obs.n = k)
                    THEN PrintT(<<"VERDICT", R.id, "C05.fault_line", f, k>>) ELSE TRUE
-        /\ LET p == Pred(R) IN IF Agrees(p, R.obs) THEN TRUE ELSE PrintT(<<"DIV", R.id, p.k, p.n, p.why>>)
+        /\ LET p == Pred(R) IN IF R.raw \/ Agrees(p, R.obs) THEN TRUE ELSE PrintT(<<"DIV", R.id, p.k, p.n, p.why>>)
         /\ i' = i + 1
 Spec == Init /\ [][Next]_i
 Done == PrintT(<<"DONE", Len(Rows), TLCGet("stats").diameter>>)
